@@ -163,3 +163,162 @@ func HarnessC06Bindings() {
 		verifrt.Assert(o.Accepted(), "a mutation of a mutable binding is rejected")
 	}
 }
+
+// ---------------------------------------------------------------------------------------------------- C19
+type c19Prog struct {
+	src      string
+	accepted bool
+	anchors  []string // for a rejected program: the source text each error diagnostic starts at, in emission order
+}
+
+var c19Small = []c19Prog{
+	{`fn res(a: i32) -> str ! i32 { if a == 0 { return "z"!; } return a; }
+fn t(a: i32, b: []i32) -> i32 {
+    let r: i32 = res(a) catch e { return -1; } 0;
+    for i, v in b { if v > 3 { continue; } else { break; } }
+    match a { 1 => { return 1; } _ => { } }
+    return r + b[0];
+}
+`, true, nil},
+	{`fn g(a: i32) -> i32 {
+    let x: i8 = a;
+    return a + y;
+}
+`, false, []string{"a;", "y;"}},
+}
+
+var c19Big = []c19Prog{
+	{`type P struct { .X: i32, .Y: i64 };
+type E enum { A, B };
+fn res(a: i32) -> str ! i32 { if a == 0 { return "zero"!; } return a; }
+fn (p: &'P) inc() { p.X += 1; }
+fn t(a: i32, b: []i32) -> i32 {
+    const K: i32 = 3;
+    let p: P = { .X = a, .Y = 2 } as P;
+    let q: i32? = none;
+    let r: i32 = res(a) catch e { return -1; } 0;
+    let s := res(a) catch -2;
+    for i, v in b { if v > K { continue; } else if v == 0 { break; } }
+    let n: i32 = a;
+    while n > 0 { n -= 1; }
+    match a { 1 => { return 1; } _ => { } }
+    let f := fn(z: i32) -> i32 { return z + (q ?? 0); };
+    p.inc();
+    return f(r) + s + b[0] + (p.X as i32);
+}
+`, true, nil},
+}
+
+func c19Check(o *Outcome, pr c19Prog, src string, at int, tr string, what string) {
+	verifrt.Assert(o.Accepted() == pr.accepted, what+" changes whether the program is accepted")
+	if pr.accepted {
+		return
+	}
+	verifrt.Assert(len(o.Errors) == len(pr.anchors), what+" changes the number of error diagnostics")
+	if len(o.Errors) != len(pr.anchors) {
+		return
+	}
+	nl := strings.Count(tr, "\n")
+	// diagnostics are compared as a set of positions (the emission order of different phases is not part of C19)
+	used := make([]bool, len(o.Errors))
+	for _, anchor := range pr.anchors {
+		base := strings.Index(pr.src, anchor)
+		line := strings.Count(pr.src[:base], "\n") + 1
+		col := base - strings.LastIndex(pr.src[:base], "\n")
+		wantIdx, wantLine, wantCol := base, line, col
+		if base >= at {
+			wantIdx += len(tr)
+			wantLine += nl
+			insLine := strings.Count(pr.src[:at], "\n") + 1
+			if insLine == line {
+				if nl == 0 {
+					wantCol += len(tr)
+				} else {
+					wantCol = base - at + len(tr) - strings.LastIndex(tr, "\n")
+				}
+			}
+		}
+		found, colOK := false, false
+		for i, d := range o.Errors {
+			if used[i] {
+				continue
+			}
+			for _, l := range d.Labels {
+				if l.Location != nil && l.Location.Start != nil && l.Location.Start.Index == wantIdx && l.Location.Start.Line == wantLine {
+					found, colOK = true, l.Location.Start.Column == wantCol
+					used[i] = true
+				}
+				break
+			}
+			if found {
+				break
+			}
+		}
+		verifrt.Assert(found, what+": a diagnostic does not move with the inserted text (byte index / line)")
+		verifrt.Assert(!found || colOK, what+": the column of a diagnostic does not move with the inserted text")
+	}
+}
+
+// c19Gaps: trivia (a blank, a newline, blank-newline-blanks, a block comment and a line comment whose text is symbolic)
+// inserted in ANY gap between two tokens of a program changes neither whether the real front end (lexer, parser,
+// collector, resolver, type checker) accepts it nor the list of error diagnostics, and every diagnostic moves exactly
+// with the inserted text (byte index, line, column).  One path per (program, gap, trivia kind, character class).
+func c19Gaps(shard, shards int) {
+	progs := c19Small
+	if verifrt.Thorough() {
+		progs = append(append([]c19Prog{}, c19Small...), c19Big...)
+	}
+	pr := progs[verifrt.Choice("program", len(progs))]
+	bag := diagnostics.NewDiagnosticBag("")
+	toks := lexer.New("m.fer", pr.src, bag).Tokenize(false)
+	per := (len(toks) + shards - 1) / shards
+	j := verifrt.Choice("gap", per+1)
+	if j == per {
+		if shard == 0 {
+			// calibration: the unmodified program behaves as recorded
+			c19Check(Run(pr.src), pr, pr.src, len(pr.src), "", "CALIBRATION: the unmodified program")
+		}
+		return
+	}
+	g := j*shards + shard
+	if g >= len(toks) {
+		return
+	}
+	at := toks[g].Start.Index // gap g = immediately before token g (the last token is EOF: trailing trivia)
+	var tr string
+	switch verifrt.Choice("trivia", 5) {
+	case 0:
+		tr = " "
+	case 1:
+		tr = "\n"
+	case 2:
+		tr = " \n  "
+	case 3:
+		tr = "/*" + c19Char() + "*/"
+	case 4:
+		tr = "//" + c19Char() + "\n"
+	}
+	src := pr.src[:at] + tr + pr.src[at:]
+	c19Check(Run(src), pr, src, at, tr, "inserting trivia between two tokens")
+}
+
+// c19Char: one symbolic character of comment text: any printable ASCII character in the thorough tier; in the quick
+// tier one of the characters that could interact with comment / string / tag syntax plus a letter and a blank.
+func c19Char() string {
+	c := verifrt.String("c", 1)
+	if verifrt.Thorough() {
+		verifrt.Assume(c[0] >= 0x20 && c[0] < 0x7f)
+	} else {
+		verifrt.Assume(c[0] == '*' || c[0] == '/' || c[0] == '"' || c[0] == '@' || c[0] == 'x' || c[0] == ' ')
+	}
+	return c
+}
+
+func HarnessC19Gaps0() { c19Gaps(0, 8) }
+func HarnessC19Gaps1() { c19Gaps(1, 8) }
+func HarnessC19Gaps2() { c19Gaps(2, 8) }
+func HarnessC19Gaps3() { c19Gaps(3, 8) }
+func HarnessC19Gaps4() { c19Gaps(4, 8) }
+func HarnessC19Gaps5() { c19Gaps(5, 8) }
+func HarnessC19Gaps6() { c19Gaps(6, 8) }
+func HarnessC19Gaps7() { c19Gaps(7, 8) }
